@@ -107,9 +107,11 @@ def run(prop, tier, seed):
         total += len(validate(v, prop, d, part, traces))
         if lo == 0 and traces:
             v.cov["samples"].append([desc(e) for e in traces[0]["ev"]])
+    chia(v, prop, d, seed, tier)
     if prop == "C13":
         burst(v, d, drv, seed, tier)
         concurrent(v, d, drv, seed, tier)
+        concurrent(v, d, vlib.build("keeper2drv"), seed, tier, drvname="keeper2drv")
     v.cov["evaluations"] = len(scen)
     v.cov["distinct_nontrivial"] = sum(1 for s in scen if nontrivial(s["steps"]))
     v.cov["traces_accepted"] = total
@@ -140,7 +142,23 @@ def burst(v, d, drv, seed, tier):
         v.classify(dict(cause="request_channel_full_under_state_lock", tag="C13-request-channel-full"), desc_, dict(scenario=sc[0], event=e))
 
 
-def concurrent(v, d, drv, seed, tier, only=None):
+def chia(v, prop, d, seed, tier):
+    """the chia keeper (poc/engine.v2/spacekeeper/skchia) against the same specification: every space starts ready"""
+    drv2 = vlib.build("keeper2drv")
+    n = 150 if tier == "quick" else 2000
+    behs, w = vlib.tlc_generate(d, "KeeperGen.tla", "Keeper2Gen.cfg", n, 25, seed + 4242)
+    scen = [dict(sc=40000 + i, seed=seed * 100003 + i, steps=b[1:], opt=dict(spaces=3, keeper="chia")) for i, b in enumerate(vlib.dedup(behs))]
+    sf, tf = os.path.join(d, "chia.json"), os.path.join(d, "chia.ndjson")
+    json.dump(scen, open(sf, "w"))
+    out, w = vlib.run_driver(drv2, sf, tf, ["-workers", str(min(vlib.NCPU, 12)), "-stall", "30"], timeout=900)
+    traces = vlib.read_traces(tf)
+    log("chia keeper: %d scenarios in %.1fs" % (len(scen), w))
+    acc = validate(v, prop, d, scen, traces)
+    v.cov["chia_keeper_scenarios"] = len(scen)
+    v.cov["chia_keeper_traces_accepted"] = len(acc)
+
+
+def concurrent(v, d, drv, seed, tier, only=None, drvname="keeperdrv"):
     """C13: concurrent callers on the real keeper while the plotter runs freely; also on a race-detector build."""
     if only is None:
         n = 60 if tier == "quick" else 600
@@ -150,7 +168,7 @@ def concurrent(v, d, drv, seed, tier, only=None):
         sc = [only]
     sf, tf = os.path.join(d, "conc.json"), os.path.join(d, "conc.ndjson")
     json.dump(sc, open(sf, "w"))
-    race = vlib.build("keeperdrv", race=True)
+    race = vlib.build(drvname, race=True)
     sites = set()
     for binpath, label in ((drv, "plain"), (race, "race")):
         for f in (tf, tf + ".races"):
@@ -158,22 +176,22 @@ def concurrent(v, d, drv, seed, tier, only=None):
                 os.remove(f)
         out, w = vlib.run_driver(binpath, sf, tf, ["-workers", str(min(vlib.NCPU, 8)), "-stall", "60"], timeout=1500)
         traces = vlib.read_traces(tf)
-        log("concurrent callers (%s build): %d histories in %.1fs" % (label, len(sc), w))
+        log("concurrent callers on %s (%s build): %d histories in %.1fs" % (drvname, label, len(sc), w))
         for s_, t in zip(sc, traces):
             if t.get("dead"):
                 raise vlib.Machinery("concurrent history did not run: %s" % t.get("note"))
             e = ([x for x in t["ev"] if x.get("a") == "Conc" or x.get("res") == "died"] or [{}])[-1]
             if e.get("res") != "ok":
                 v.classify(dict(cause="concurrent_callers", res=str(e.get("res"))),
-                           "history %d (%s build): with %d concurrent callers the keeper %s: %s" % (
-                               t["sc"], label, len(s_["opt"]["threads"]), {"hang": "did not return", "panic": "panicked", "died": "killed the process"}.get(e.get("res"), str(e.get("res"))),
+                           "history %d (%s, %s build): with %d concurrent callers the keeper %s: %s" % (
+                               t["sc"], drvname, label, len(s_["opt"]["threads"]), {"hang": "did not return", "panic": "panicked", "died": "killed the process"}.get(e.get("res"), str(e.get("res"))),
                                "; ".join(e.get("bad", []))[:600] or (t.get("note") or "")[-600:]),
-                           dict(scenario=s_, event=e))
+                           dict(scenario=dict(s_, opt=dict(s_["opt"], keeper=("chia" if drvname == "keeper2drv" else "capacity"))), event=e))
         if os.path.exists(tf + ".races"):
             import walletconc
             sites |= set(walletconc.race_sites(open(tf + ".races").read(), "spacekeeper"))
-    v.cov["concurrent_histories"] = len(sc)
-    v.cov["race_sites_in_keeper"] = [list(x) for x in sorted(sites)]
+    v.cov["concurrent_histories_" + drvname] = len(sc)
+    v.cov["race_sites_" + drvname] = [list(x) for x in sorted(sites)]
     for st in sorted(sites):
         log("NOTE race detector (keeper): %s" % (st,))
     v.cov["evaluations_concurrent"] = len(sc) * 2
